@@ -1,4 +1,5 @@
 import ScVerif.C04.Session
+import ScVerif.C04.BusOnce
 import ScVerif.C01.Flat
 /-!
 # C04 — property theorems under subscriber churn
@@ -59,6 +60,33 @@ theorem C04_no_subscriber_lost (cfg : Cfg M K R) (eqv : Eqv M) (s0 : CState M R)
   exact ⟨runSession_ids cfg eqv s0 items _ [] h0 (by simpa using hfresh),
     (runSession_good cfg eqv s0 items _ [] h0 (by simpa using hfresh)).2⟩
 
+/-- **At most once, cancelled subscribers included.**  For every schedule of `Listen`s (fresh
+identities) and cancels interleaved with the delivery loop of one `Send`: every listener registered when
+the loop has finished (`sendRaw`: before the garbage collection — so also a subscription cancelled before
+or DURING this `Send`), and hence every listener registered after the `Send`, is
+* a listener of the snapshot that has been handed the event exactly once (`d` applied once) — and then it
+  was live at the snapshot — or not at all (it was dead, or was cancelled before the loop reached it);
+  it is live only if it was live at the snapshot (nobody is resurrected); or
+* a listener registered meanwhile, holding exactly the state it registered with (not handed the event).
+Never twice, never a made-up state: a cancelled subscriber has received a prefix of what it would have
+received. -/
+theorem C04_send_at_most_once {ι σ : Type} [DecidableEq ι] (d : σ → σ) (ls : List (Lsn ι σ)) (sched : List (Act ι σ))
+    (hf : (ls.map (·.id) ++ schedIds sched).Nodup) :
+    (∀ l ∈ sendRaw d ls sched,
+      (∃ l0 ∈ ls, l0.id = l.id ∧ (l.alive = true → l0.alive = true) ∧
+        (l.st = l0.st ∨ (l.st = d l0.st ∧ l0.alive = true))) ∨
+      (l.id ∉ ls.map (·.id) ∧ (Act.listen l.id l.st : Act ι σ) ∈ sched)) ∧
+    (∀ l ∈ send d ls sched, l ∈ sendRaw d ls sched) := by
+  refine ⟨?_, send_sub_raw d ls sched⟩
+  intro l hl
+  rcases sendRaw_served d ls sched (List.nodup_append.mp hf).1 (freshSched_of_nodup sched _ hf) l hl with
+    ⟨l0, h0, hid, hal, hst⟩ | h
+  · refine Or.inl ⟨l0, h0, hid, hal, ?_⟩
+    rcases hst with hst | ⟨h1, h2, _⟩
+    · exact Or.inl hst
+    · exact Or.inr ⟨h1, h2⟩
+  · exact Or.inr h
+
 /-! ## Non-vacuity -/
 
 def chCfg : Cfg Msg Mask (List Nat) := { ops := flatOps, gen := flatGen }
@@ -94,5 +122,17 @@ example :
     view (sendSwap (fun n : Nat => n + 1) [{ id := 1, alive := false, st := 0 }] [.listen 2 7]) = [] ∧
     view (send (fun n : Nat => n + 1) [{ id := 1, alive := false, st := 0 }] [.listen 2 7]) = [(2, 7)] := by
   constructor <;> rfl
+
+/-- a subscription cancelled DURING a `Send`: listener 2 is cancelled after listener 1 was served and
+before its own turn — 1 and 3 are served once, 2 not at all (and is collected), in the raw list it is
+still there, dead and unserved; cancelled after its turn it has been served, once -/
+example :
+    (sendRaw (fun n : Nat => n + 1) [{ id := 1, st := 0 }, { id := 2, st := 0 }, { id := 3, st := 0 }]
+        [.visit, .cancel 2]).map (fun l => (l.id, l.alive, l.st)) = [(1, true, 1), (2, false, 0), (3, true, 1)] ∧
+    view (send (fun n : Nat => n + 1) [{ id := 1, st := 0 }, { id := 2, st := 0 }, { id := 3, st := 0 }]
+        [.visit, .cancel 2]) = [(1, 1), (3, 1)] ∧
+    (sendRaw (fun n : Nat => n + 1) [{ id := 1, st := 0 }, { id := 2, st := 0 }, { id := 3, st := 0 }]
+        [.visit, .visit, .cancel 2]).map (fun l => (l.id, l.alive, l.st)) = [(1, true, 1), (2, false, 1), (3, true, 1)] := by
+  refine ⟨?_, ?_, ?_⟩ <;> rfl
 
 end ScVerif.C04
